@@ -417,7 +417,10 @@ func checkAgg(goose, mod, work string, a agg) (kind, msg string) {
 	}
 	f, perr := gl.ParseFile(string(b))
 	if perr != nil || len(f.Bad) > 0 {
-		return "partial-output-malformed", fmt.Sprint(perr, f.Bad)
+		if perr != nil {
+			return "partial-output-malformed", perr.Error()
+		}
+		return "partial-output-malformed", fmt.Sprint(f.Bad[0].Err)
 	}
 	got := append([]string(nil), f.Order...)
 	want := append([]string(nil), a.Good...)
